@@ -49,7 +49,7 @@ def _upd(job):
         r = drive.cli(["update"] + glue.cli_flags(f, nd), cwd=proj.root)
         if r.exit != 0:
             return None
-        lines = proj.read("info.txt").decode("utf-8").split("\n")
+        lines = proj.read("info.txt").decode("utf-8", "replace").split("\n")
     t = lines[1][4:]
     u = lines[3][4:]
     r2 = drive.cli(["test", t0, pat] + glue.cli_flags(f, nd))
